@@ -28,11 +28,13 @@ CHECKS = {
         "itself; rgba = nearest integer of source-over, hsla = truncation over the rounded colour (<= 1.5); complete: 148 keywords x spellings, all #rgb, all 2^24 #rrggbb (thorough), all hex digit pairs. NOT provable with the installed solvers: "
         "regex findall / replace+split tokenisation and float(str) - assumed and exercised by generated class members vs a reference CSS parser (bounded).",
    note=TB + "reference CSS parser in /verif/oracles; tokenisation contract assumed (bounded check).", ref='§8 C07'),
- 'C08': dict(cat='other', tech='bounded run-time contract: the real click command on an enumerated stylesheet corpus judged by independent oracles (engine E) + dataflow-structural obligations on the real AST of the per-rule logic (engine C)',
-   text="the file-level clause quantifies over stylesheets as interpreted by tinycss2 (a proof would be about a model of that library): checked on a generated corpus (every colour spelling, custom properties chained / with "
-        "fallback / undefined / shared, !important, repeated declarations, nesting <= 3, carry-through constructs, threshold-band pairs) x settings; counts vs an independent per-rule classification, report vs written file vs "
-        "Python API vs WCAG oracle. The readable decision, the fix call and the write-back/failed branches are pinned on the AST by dataflow. Two defects repaired, two recorded as known findings.",
-   note="tinycss2 as trusted reader; bounded to the corpus; known findings matched by (failure kind | trigger).", ref='§8 C08'),
+ 'C08': dict(cat='other', tech='contract-based deductive verification of the mechanically extracted per-rule block of process_nodes_recursive (engine A, z3; API as function symbols with its proved contracts) + bounded run-time contract: the real click command on an enumerated stylesheet corpus judged by independent oracles (engine E)',
+   text="per-rule accounting proved on the real statement block (extracted from the AST on every run): exactly one of the three counters +1 on every path incl. exception paths, 'readable' only at ratio >= 7.0/4.5, 'adjusted' only on "
+        "success of make_readable(mode, premium) of this pair with the colour written and the colour reported being the API's colour, 'needs attention' listed and nothing written. The file-level clause quantifies over stylesheets as "
+        "interpreted by tinycss2 (a proof would be about a model of that library): checked on a generated corpus (every colour spelling, random / light colours, custom properties chained / with fallback / undefined / shared / "
+        "redefined under the CSS cascade, !important, repeated declarations, same selector repeated, nesting <= 3, carry-through constructs, threshold-band pairs, a deterministic core x all 16 settings) - counts vs an independent "
+        "per-rule classification, report vs written file vs Python API vs WCAG oracle, attention rules unchanged. Three defects repaired, two recorded as known findings.",
+   note=TB + "assumed contracts: tinycss2-facing helpers total; API facts from C01/C06/C14/C15; shape of the `variables` map. tinycss2 as trusted reader; file-level part bounded to the corpus; known findings matched by (failure kind | trigger).", ref='§8 C08, §11'),
  'C09': dict(cat='other', tech='frame proof by the effect checker on the real ASTs + z3 string lemma (engine C) for the files touched; bounded structural diff of input vs output on a stylesheet corpus (engine E)',
    text="proved: the only writes of the package are open(output_path,'w') in main / generate_report / to_html_bulk, output_path = parent/(stem+'_cm'+suffix) assigned once, the report path is the literal default, the only read is the "
         "input file, and stem+'_cm'+suffix != stem+suffix for all strings - so inputs are never opened for writing and nothing else is created. Bounded: rules / at-rules / comments / declarations preserved in order on the corpus.",
